@@ -413,11 +413,14 @@ std::vector<std::string> Cells(int tier) {
 
 bool CellBounds(const vx::Cell& cell, int tier, vx::Bounds& b) {
   const int n = cell.Int("n", 2);
-  const bool shared = cell.Str("form").find("shared") != std::string::npos;
-  if (n == 3) {
+  const bool shared = cell.Str("form").find("shared") != std::string::npos || cell.Is("form", "mixed");
+  // calibrated (schedules per cell): unique inputs n=2: P=3 ~5 k, P=4 ~30 k, P=5 ~150 k; shared inputs n=2: P=3 ~50 k, P=4 ~450 k
+  if (n >= 3) {
     b.P = tier == 0 ? 2 : 3;
+  } else if (shared) {
+    b.P = tier == 0 ? 3 : 4;
   } else {
-    b.P = tier == 0 ? 2 : 3;
+    b.P = tier == 0 ? 4 : 5;
   }
   b.S = 1;
   b.T = 0;
